@@ -22,7 +22,8 @@ RULE = (
     "violated (dbc/can_c: unknown struct; dbc: duplicate CAN id; can_c: 65..72 bit message), (d) with "
     "a synthetic always-rejecting check registered in each of the 8 verifier categories, before or "
     "after the general checks.  Output directory states: absent, empty, unrelated files, files with "
-    "the very names the generator writes, stale .c/.h files.  Monitors: return value must be Err; a "
+    "the very names the generator writes (other text, a CRLF copy of the output, bytes that are not "
+    "UTF-8, an identical copy), stale .c/.h files.  Monitors: return value must be Err; a "
     "sys.addaudithook event log of every write-open / remove / rename / mkdir / rmdir during the "
     "call (catches write-then-delete and writes outside the directory) and a content-hash snapshot "
     "of the directory before/after.  The `python -m fcp generate` command line is run as a subprocess for an "
@@ -36,6 +37,8 @@ ASSUMPTIONS = [
 GENERATORS = ["dbc", "can_c", "cpp", "nop"]
 CATEGORIES = ["struct", "field", "enum", "impl", "signal_block", "type", "device", "uncategorized"]
 DIR_STATES = ["absent", "empty", "unrelated", "same-names", "stale-c"]
+# states that need the contents the plug-in is going to return (only used on the success path)
+CONTENT_STATES = ["same-names-crlf-copy", "same-names-not-utf8", "same-names-identical"]
 
 
 def shards(tier):
@@ -82,13 +85,38 @@ def inject_plugin(r, t, what):
     return t
 
 
-def prepare_dir(root, state, names):
+def expected_files(gen_name, t, root):
+    """{relative path: contents} the plug-in returns for this tree (dry run into a scratch directory)."""
+    mod = importlib.import_module("fcp_" + gen_name)
+    ref = os.path.join(root, "dry")
+    out = {}
+    for f in mod.Generator().generate(c09.build(t), {"output": ref, "templates": {}, "skels": {}}):
+        if f.get("type") == "file":
+            out[os.path.relpath(str(f["path"]), ref)] = str(f["contents"])
+    shutil.rmtree(ref, ignore_errors=True)
+    return out
+
+
+def prepare_dir(root, state, names, contents=None):
     out = os.path.join(root, "out")
     if os.path.exists(out):
         shutil.rmtree(out)
     if state == "absent":
         return out
     os.makedirs(out)
+    if state in CONTENT_STATES:
+        for rel, text in (contents or {}).items():
+            p = os.path.join(out, rel)
+            os.makedirs(os.path.dirname(p), exist_ok=True)
+            if state == "same-names-crlf-copy":
+                data = text.replace("\r\n", "\n").replace("\n", "\r\n").encode()
+            elif state == "same-names-not-utf8":
+                data = b"\xff\xfe\x00 not text \x80\x81"
+            else:
+                data = text.encode()
+            with open(p, "wb") as f:
+                f.write(data)
+        return out
     if state == "unrelated":
         open(os.path.join(out, "README.txt"), "w").write("keep me\n")
         os.makedirs(os.path.join(out, "sub"))
@@ -152,7 +180,14 @@ def drive(run, gen_name, t, expect_reject, source, dir_state, root, probe=None, 
             lst = getattr(verifier, "checks", {}).get(cat)
             if isinstance(lst, list) and len(lst) > 1:
                 lst.insert(0, lst.pop())
-    out_dir = prepare_dir(root, dir_state, known_names)
+    contents = None
+    if dir_state in CONTENT_STATES:
+        try:
+            contents = expected_files(gen_name, t, root)
+        except Exception as e:
+            run.violation("the plug-in's generate() raised %s: %s on a schema every check accepts" % (type(e).__name__, e), case)
+            return
+    out_dir = prepare_dir(root, dir_state, known_names, contents)
     before = audit.snapshot(out_dir)
     outside_before = audit.snapshot(os.path.join(root, "neighbour"))
     cap = Capture(gen_name)
@@ -332,7 +367,7 @@ def run(run):
             rr = run.rng("drive", b, g)
             names = {"dbc": ["can0.fcp", "default.fcp"], "can_c": ["ecu_can.c", "ecu_can.h", "can_frame.h"], "cpp": ["fcp.h", "buffer.h", "rpc.h"], "nop": ["x"]}[g]
             # (a) positive, every directory state
-            for ds in DIR_STATES:
+            for ds in DIR_STATES + CONTENT_STATES:
                 drive(run, g, t, False, "none", ds, root, known_names=names)
             # (b) general rules
             for rule in c09.RULES[1:]:
